@@ -7,7 +7,7 @@ TRUST = ("TLC's evaluation of the TLA+ definitions; crypto/sha512; harness/refmo
          "coordinates; observed executions only (sampling with an exact oracle), design level exhaustive only at the scaled constants")
 
 CHECKS = {
- "C01": ("4 C01", "R1 exhaustive TLC model check of the verify pipeline against the declarative cofactored predicate on the scaled group Z_17 x Z_8; "
+ "C01": ("4 C01", "R1 exhaustive TLC model check of the verify pipeline against the declarative cofactored predicate on the scaled group Z_17 x Z_8; CofactorEqual / geSub / CofactorMultiply as formulas on every pair of points of a small curve (MCGroupLaw); "
          "R2 TLC-enumerated case matrix (23 x 23 point kinds x S rules x variants x lengths + bit perturbations) replayed on the real Verify/VerifyWithOptions/VerifyBatch; "
          "R3 every call validated by TLC against Verify.tla in exact 253/512-bit arithmetic"),
  "C02": ("4 C02", "R1: TLC checks the option table and the dom2 layout (injective, prefix-free) exhaustively over a small alphabet; R3: every key derivation / signature of the driver "
@@ -59,7 +59,7 @@ CHECKS = {
  "C15": ("4 C15", "R1: TLC explores every interleaving of 3 clients x 3 chunk steps of Conc.tla: package-level variables never written, every call returns its solo result (a shared scratch heap is refuted as control); "
          "R2: all interleavings of the chunk steps of concurrent VerifyBatch calls enumerated by TLC and replayed on the real code with a blocking entropy reader as gate; R3: ordered pairs / triples of a 16-operation "
          "alphabet and 16 free-running goroutines under the race detector, every result and a digest of all package-level variables validated by TraceConc.tla"),
- "C09": ("4 C09", "R1: SmallOrder(P) <=> k=0 in Z_L x Z_8 drives the pipeline; R2/R3: the 14 torsion encodings (positive) and [k]B+T_t for all t, non-canonical y+p, small k (negative) "
+ "C09": ("4 C09", "R1: SmallOrder(P) <=> k=0 in Z_L x Z_8 drives the pipeline; IsNeutral([8]P) <=> order divides 8 for every point and scaling of a small curve (MCGroupLaw); R2/R3: the 14 torsion encodings (positive) and [k]B+T_t for all t, non-canonical y+p, small k (negative) "
          "as key and as R through single/batch verification and directly through isSmallOrderVartime, validated by TLC"),
  "C20": ("4 C20", "R1: non-interference of the leakage models of the selector / recoding loop / comparison as a 2-safety property, decided by TLC through self-composition over all pairs of secrets "
          "(early-exit comparison and secret-indexed lookup refuted as controls); R3: machine-level instruction + load/store address traces (valgrind lackey, cut between two markers, restricted to the code of "
